@@ -553,11 +553,11 @@ func cTerm(name string, cops []cop, r cresult, keys, pays, names *table) string 
 	for s, id := range pays.ids {
 		cpays.ids["c:"+s] = id
 	}
-	ot := obsTermLen1(o, keys, cpays, names)
 	nid := uint64(0)
 	if name != "" {
 		nid = names.id(name)
 	}
+	ot := obsTermLen1(o, keys, cpays, names)
 	return common.App("CaseC", tok(nid, len(name)), common.List(cts), common.List(ats), ot)
 }
 
